@@ -1872,3 +1872,43 @@ def c10_k9(ctx):
         yield bad("C10-K9", "send_pdu:Cancelled->shutdown", at(f, where), "the send step ends a cancelled sender that may be in acknowledged mode (state %s): its EOF(cancel) is never retransmitted and the receiver's Finished is never answered" % world_str(badw))
     else:
         yield ok("C10-K9", "send_pdu:Cancelled->shutdown", at(f), {"shutdown_sites_in_send_pdu": n})
+
+
+# ================================================================ C10-K10: the peer's verdict is always adopted
+@rule("C10", "C10-K10", 4, "an EOF (at the receiver) or a Finished (at the sender) that reaches the arm which handles it always has its condition adopted: from the point where the PDU's content is bound, every path to a successful return passes `self.condition = <pdu>.condition` - no early return for a 'retransmission' skips a cancel announced by the peer", also=("C04",))
+def c10_k10(ctx):
+    n = 0
+    for adt, payload in ((RECV, "@EoF.0"), (SEND, "@Finished.0")):
+        nm = adt.split("::")[-1]
+        f = ctx.one("C10-K10", nm + "::process_pdu")
+        eb = ExprBuilder(ctx.prog, f, user_stop=True)
+        err = _error_exit_blocks(ctx, f)
+        # the assignments, grouped by the bound PDU variable
+        by_var = {}
+        for f2, b, j, s_, ps in field_writes([f], "self.condition"):
+            if j < 0:
+                continue
+            mc = re.match(r"^(\w+)\.condition$", expr_str(eb.rvalue(s_["rv"])))
+            if not mc:
+                continue
+            ds = eb.var_defs(mc.group(1))
+            if not ds or not all(payload in expr_str(x) for x in ds):
+                continue
+            by_var.setdefault(mc.group(1), set()).add(b)
+        for var, ablocks in sorted(by_var.items()):
+            ls = [l for vn, l, pj in f.var_places if vn == var and not pj]
+            binds = [d[1] for l in ls for d in f.defs(l) if d[0] == "assign"]
+            for bb in binds:
+                n += 1
+                key = "%s::process_pdu:%s.condition-adopted" % (nm, var)
+                if bb in ablocks:
+                    yield ok("C10-K10", key, at(f, f.blocks[bb]["term"]["span"]["line"]), "adopted where the PDU is bound")
+                    continue
+                r = f.reachable(bb, avoid=ablocks | err)
+                leak = [x for x in r if f.blocks[x]["term"]["k"] == "return"]
+                if leak:
+                    yield bad("C10-K10", key, at(f, f.blocks[bb]["term"]["span"]["line"]), "a path from the arm that handles this PDU returns successfully without `self.condition = %s.condition`: a cancel (or fault) the peer announces in it is ignored on that path - the transaction keeps waiting for what the peer will never send" % var)
+                else:
+                    yield ok("C10-K10", key, at(f, f.blocks[bb]["term"]["span"]["line"]), "every successful path adopts the condition")
+    if n == 0:
+        raise Anchor("C10-K10", "`self.condition = <pdu>.condition` in the EOF / Finished arms")
